@@ -271,7 +271,9 @@ type c05In struct {
 	TimeoutS int `json:"timeoutS,omitempty"`
 }
 type c05Out struct {
-	Perms    []cc.VerifC05Perm `json:"perms"`
+	Perms []cc.VerifC05Perm `json:"perms"`
+	// Base: the library itself, every permutation with the simple name of its test case
+	Base     []cc.VerifC05Perm `json:"base"`
 	Requests []map[string]any  `json:"requests"`
 	Servers  []map[string]any  `json:"servers"`
 	RunErr   string            `json:"runErr"`
@@ -426,6 +428,10 @@ func c05Run(c *gen.Ctx, in c05In) c05Out {
 		return out
 	}
 	out.Perms = perms
+	if out.Base, err = cc.VerifC05Library(files, cfg, mode); err != nil {
+		out.LoadErr = err.Error()
+		return out
+	}
 	t0 := time.Now()
 	done := make(chan error, 1)
 	var runErr error
@@ -585,6 +591,38 @@ func c05FateScenarios(c *gen.Ctx) []any {
 	return ins
 }
 
+// c05NameScenarios: suites and test cases whose names repeat themselves — the test's own name is
+// also the suite's name, a suffix or a word of it, a whole path component of it, or the text of one
+// of the axis components every full name contains ("TLS", "false", "Protocol", "HTTPVersion:2") —
+// run against the in-process reference servers (mode client: the gRPC-peer permutations and their
+// marked names take part): every permutation, plain or gRPC-peer, must be handed out exactly once
+// under its own name, the marker sitting immediately before the LAST occurrence of the test's name.
+func c05NameScenarios(c *gen.Ctx) []any {
+	mk := func(ms int, run, skip []string, suites ...c05Suite) any {
+		c.E.Count("names")
+		return c05In{Mode: "client", MaxServers: ms, Versions: []int{1, 2}, Protos: []int{1, 2, 3}, Behaviour: "ok", Run: run, Skip: skip, Suites: suites}
+	}
+	t := func(names ...string) []c05Test {
+		var out []c05Test
+		for _, n := range names {
+			out = append(out, c05Test{Name: n, St: 1})
+		}
+		return out
+	}
+	ins := []any{
+		mk(2, []string{}, []string{}, c05Suite{Name: "Echo unary", Tests: t("unary", "unary/with-headers", "Echo unary")}),
+		mk(1, []string{}, []string{}, c05Suite{Name: "a", Tests: t("a", "a/a", "b/a")}, c05Suite{Name: "b", Tests: t("a")}),
+		mk(4, []string{}, []string{"**/(grpc server impl)/TLS"}, c05Suite{Name: "TLS", Tests: t("TLS", "false", "TLS:false", "HTTPVersion:2", "Protocol")}),
+	}
+	if c.Thorough() {
+		ins = append(ins,
+			mk(2, []string{"**/unary", "**/(grpc server impl)/x/unary"}, []string{}, c05Suite{Name: "unary", Tests: t("unary", "x/unary", "unary/unary")}),
+			mk(2, []string{}, []string{"**/a"}, c05Suite{Name: "a", Tests: t("a", "a/a/a", "Codec:CODEC_PROTO")}),
+		)
+	}
+	return ins
+}
+
 func runC05(c *gen.Ctx) error {
 	r := c.R
 	n := 10
@@ -619,8 +657,12 @@ func runC05(c *gen.Ctx) error {
 			in.Behaviour = gen.Pick(r, []string{"garbage", "nocert"})
 		}
 		ns := r.Range(1, 3)
+		tricky := r.Chance(1, 3) // names whose components repeat (see c05NameScenarios)
 		for s := 0; s < ns; s++ {
 			su := c05Suite{Name: fmt.Sprintf("S%d", s)}
+			if tricky {
+				su.Name = []string{"Echo unary", "a", "TLS"}[s]
+			}
 			if r.Chance(1, 4) {
 				su.TLS = true
 			}
@@ -632,12 +674,27 @@ func runC05(c *gen.Ctx) error {
 			}
 			nt := r.Range(1, 4)
 			for t := 0; t < nt; t++ {
-				su.Tests = append(su.Tests, c05Test{Name: fmt.Sprintf("%s/t%d", gen.Pick(r, []string{"a", "b", "grp/x"}), t), St: r.Range(1, 5)})
+				name := fmt.Sprintf("%s/t%d", gen.Pick(r, []string{"a", "b", "grp/x"}), t)
+				if tricky {
+					// the test's own name occurs earlier in the full name too: in the suite name, as a
+					// suffix or a whole component of it, or in one of the axis components
+					pool := []string{"unary", "a", "a/a", "TLS", "false", "Protocol", "TLS:false", su.Name, "x/" + su.Name, "unary/a", "HTTPVersion:2", "b"}
+					name = pool[(r.Intn(len(pool))+t*5)%len(pool)]
+					for _, prev := range su.Tests {
+						if prev.Name == name {
+							name = fmt.Sprintf("%s/t%d", name, t)
+						}
+					}
+				}
+				su.Tests = append(su.Tests, c05Test{Name: name, St: r.Range(1, 5)})
 			}
 			in.Suites = append(in.Suites, su)
 		}
 		// patterns derived from plausible names
 		pat := func() string {
+			if tricky && r.Bool() {
+				return gen.Pick(r, []string{"**/unary", "Echo unary/**", "**/(grpc server impl)/a", "a/**", "**/TLS:false/TLS", "**/a"})
+			}
 			switch r.Intn(7) {
 			case 0:
 				return "S0/**"
@@ -691,6 +748,7 @@ func runC05(c *gen.Ctx) error {
 		ins = append(ins, c05In{Mode: "client", MaxServers: 2, Versions: []int{1, 2}, Protos: []int{1, 2, 3}, TLS: true, Certs: false,
 			Behaviour: "ok", Run: mp[0], Skip: mp[1], Suites: allKinds[:2]})
 	}
+	ins = append(ins, c05NameScenarios(c)...)
 	// server faults with slow-exiting servers and a single permit: the early-return paths of the
 	// batch runner must not free the permit while the aborted server is still alive
 	for _, beh := range []string{"garbage", "nocert"} {
